@@ -108,7 +108,8 @@ def tsm_oracle(c, parts, trace_filter=lambda x: True):
     for tok in parts[3].split()[1:]:
         k, v = tok.split("="); R[int(k)] = int(v)
     images = 3 ** S.d if S.per else 1       # periodic lists from level 1 down: every source once per adjacent copy of the box
-    tot = (images * sum(A.weight(p) for p in range(S.N))) & A.M64
+    runs = 2 if c.startswith("exectsmrb") else 1      # exectsmrb: one full execution before the move + rebuild; its results must be preserved
+    tot = (runs * images * sum(A.weight(p) for p in range(S.N))) & A.M64
     if sorted(R) != list(range(Tg.N)):
         return "results for targets %s" % sorted(R)[:10]
     for p in range(Tg.N):
@@ -163,9 +164,17 @@ def run(tier, seed):
         def oracle(c, line):
             return tsm_oracle(c, split(line))
 
-        vlib.differential(rep, binary, cases, sdir, "tsm", canon=canon, oracle=oracle,
-                          nontrivial=lambda c, i: " M2L " in i and " P2PTsm " in i, clause=lambda c: "tsm:d" + c.split()[1])
-        rep.coverage["rule"] = ("sequential target/source executor with the TraceKernel; independent source/target distributions (disjoint halves, identical positions, one side in a single leaf, "
+        # the same runs reached through TbfTreeTsm::rebuild(): built from displaced positions, executed, every particle of both
+        # trees moved in place to its final position, rebuilt - then executed as before (full executions only)
+        rbc = []
+        for cc in cases:
+            f = cc.split()
+            if f[7:9] == ["1", "63"] and len(rbc) < (80 if tier == "quick" else 2000):
+                rbc.append("exectsmrb " + " ".join(f[1:]))
+        allc = cases + rbc
+        vlib.differential(rep, binary, allc, sdir, "tsm", canon=canon, oracle=oracle, model_cases=[x.replace("exectsmrb ", "exectsm ", 1) for x in allc],
+                          nontrivial=lambda c, i: " M2L " in i and " P2PTsm " in i, clause=lambda c: ("tsmrb:d" if c.startswith("exectsmrb") else "tsm:d") + c.split()[1])
+        rep.coverage["rule"] = ("sequential target/source executor with the TraceKernel (also on trees moved + rebuilt through TbfTreeTsm::rebuild after a first execution); independent source/target distributions (disjoint halves, identical positions, one side in a single leaf, "
                                 "single particle either side, uniform/clustered/faces/lattice), d=1..4, heights 2..7, block sizes incl. 1, n/2, n, 1e7, both modes, stop 0..2; non-trivial = M2L and P2PTsm both present")
         return rep.finish()
     finally:
